@@ -23,34 +23,7 @@ FILES = ["core/calculator.py", "core/tasks.py", "core/full_modulus.py", "core/qh
          "core/phonon_contribution/shear.py", "io/config/config.py", "io/config/validate.py", "io/output/results_writer.py", "io/traditional/elast_dat.py",
          "io/traditional/qha_input.py", "util/fill.py", "util/units.py", "util/voigt.py"]
 
-# contract: ambient reads that are part of a function's specification
-ALLOWED_AMBIENT = {
-    ("util/fill.py", "fill_cij"): "a path to a relations file may be given in place of a system name: the file system is consulted for exactly that path",
-}
-# contract: loops over sets whose bodies commute (each iteration writes its own cell / key with a value independent of the order)
-ALLOWED_SET_ITERATION = {
-    ("core/calculator.py", "Calculator._calculate_compliances"): "writes elastic_moduli[:, :, i-1, j-1] for the two index orders of ONE key with the same array: distinct cells, same value",
-    ("io/config/config.py", "update_config"): "each iteration writes only output_dict[k] for its own key (loop rule proved in C16)",
-}
-
-
-# contract: in-place updates of objects received from the caller that are part of the function's specification (or rebinding of immutables)
-ALLOWED_WRITES = {
-    ("core/phonon_contribution/nonshear.py", "clear_gamma_point"): "contract: zeroes the Gamma-acoustic slots of ITS ARGUMENT in place (callers pass a private copy, C01)",
-    ("core/mode_gamma.py", "lstsq_polyfit"): "`order += 1` rebinds an integer parameter (immutable): no object is written",
-    ("util/fill.py", "fill_cij"): "writes the solved columns into the table it was given (the returned frame may be the input object); values of non-modulus columns are untouched (C08/C09)",
-    ("misc/evec_disp2eig.py", "evec_disp2eig"): "works on numpy.copy(a)",
-}
-
-
-# module-level clauses of the same contracts: they hold for whichever function of the module performs the step, so that extracting a helper
-# does not change the verdict.  (pattern on the analysis' finding text, reason)
-ALLOWED_AMBIENT_MODULE = {
-    "util/fill.py": (r"^file-system probe Path\(\w+\)\.is_file\(\)", ALLOWED_AMBIENT[("util/fill.py", "fill_cij")]),
-}
-ALLOWED_WRITES_MODULE = {
-    "util/fill.py": (r"^item assignment into (\w+), which is bound to parameter \1 ", ALLOWED_WRITES[("util/fill.py", "fill_cij")]),
-}
+from contracts.frame_contracts import ALLOWED_AMBIENT, ALLOWED_SET_ITERATION, ALLOWED_WRITES, ALLOWED_AMBIENT_MODULE, ALLOWED_WRITES_MODULE, frame_result  # noqa: E402,F401
 
 
 def run(s):
@@ -65,28 +38,7 @@ def run(s):
     # ---------------- 1. frame obligations, one per anchored file
     for rel in FILES:
         def ob(rel=rel):
-            path = os.path.join(base, rel)
-            if not os.path.exists(path):
-                return core.unknown("frames", "%s no longer exists" % rel)
-            reps = frames.analyse(path)
-            bad = []
-            for q, r in reps.items():
-                for kind, what in r.findings():
-                    if kind == "ambient" and (rel, q) in ALLOWED_AMBIENT:
-                        continue
-                    if kind == "ambient" and rel in ALLOWED_AMBIENT_MODULE and re.search(ALLOWED_AMBIENT_MODULE[rel][0], what):
-                        continue
-                    if kind == "write" and rel in ALLOWED_WRITES_MODULE and re.search(ALLOWED_WRITES_MODULE[rel][0], what):
-                        continue
-                    if kind == "set-iteration" and (rel, q) in ALLOWED_SET_ITERATION:
-                        continue
-                    if kind == "write" and (rel, q) in ALLOWED_WRITES and ("parameter" in what or "in-place" in what or "item assignment" in what):
-                        continue
-                    bad.append("%s: %s: %s" % (q, kind, what))
-            if bad:
-                return core.refuted("frames", "%s: %s" % (rel, "; ".join(bad[:6])), witness_id="frame:%s:%s" % (rel, bad[0][:60]))
-            return core.proved("frames", "%s: %d functions write nothing reachable from module level / class bodies / mutable defaults, read no ambient state beyond their "
-                                         "contract, and iterate no set outside the commuting loops" % (rel, len(reps)))
+            return frame_result(rel)
         s.oblige("C14.frame[%s]" % rel, ob, ["cij/" + rel], kind="frame")
 
     def module_state():
